@@ -19,6 +19,7 @@ import (
 	"regexp"
 	"strconv"
 	"strings"
+	"sync"
 	"sync/atomic"
 	"syscall"
 	"time"
@@ -46,6 +47,8 @@ type ProcCase struct {
 	Extra     int        `json:"extra_files,omitempty"`
 	Relation  string     `json:"relation,omitempty"` // "" | f-vs-inline | stdin-vs-file | r-vs-beginfile
 	Strace    *StraceInj `json:"strace,omitempty"`
+
+	fifos []fifoFeed
 }
 
 // StraceInj: ptrace-level fault injection (strace -e inject=...) restricted to
@@ -85,6 +88,7 @@ func procScratch() string {
 
 // materialise the case's filesystem in dir; returns argv (without the binary)
 func (c *ProcCase) setup(dir string, variant string) (args []string, stdinPath string, ofilePath string, err error) {
+	c.fifos = nil
 	prog := c.Prog
 	selectors := c.Selectors
 	inputs := c.Inputs
@@ -154,6 +158,15 @@ func (c *ProcCase) setup(dir string, variant string) (args []string, stdinPath s
 				return
 			}
 		case "procmem":
+		case "fifo":
+			// a named pipe: a size-0, non-seekable named input whose bytes
+			// arrive only once the binary has opened it
+			p := filepath.Join(dir, in.Name)
+			os.MkdirAll(filepath.Dir(p), 0o755)
+			if err = syscall.Mkfifo(p, 0o644); err != nil {
+				return
+			}
+			c.fifos = append(c.fifos, fifoFeed{path: p, data: in.Data})
 		default:
 			// names are passed exactly as spelled (./x, a//x, sub/../x): the
 			// directories they mention must exist
@@ -220,7 +233,18 @@ func runBinary(c *ProcCase, variant string) (res procResult, trouble error) {
 	}
 	res.started = true
 	timer := time.AfterFunc(60*time.Second, func() { cmd.Process.Kill() })
+	done := make(chan struct{})
+	var feeders sync.WaitGroup
+	for _, f := range c.fifos {
+		feeders.Add(1)
+		go func(f fifoFeed) {
+			defer feeders.Done()
+			f.feed(done)
+		}(f)
+	}
 	werr := cmd.Wait()
+	close(done)
+	feeders.Wait()
 	if !timer.Stop() {
 		return res, errors.New("binary exceeded the 60 s watchdog")
 	}
@@ -280,6 +304,35 @@ func runBinary(c *ProcCase, variant string) (res procResult, trouble error) {
 		}
 	}
 	return res, nil
+}
+
+// fifoFeed is the writing end of a named pipe given to the binary as an input:
+// it opens the pipe once the binary is reading it, delivers the bytes in two
+// writes and closes. If the binary never opens the pipe the feeder gives up
+// when the binary has exited.
+type fifoFeed struct {
+	path string
+	data []byte
+}
+
+func (f fifoFeed) feed(done chan struct{}) {
+	for {
+		fd, err := syscall.Open(f.path, syscall.O_WRONLY|syscall.O_NONBLOCK, 0)
+		if err == nil {
+			syscall.SetNonblock(fd, false)
+			w := os.NewFile(uintptr(fd), f.path)
+			h := len(f.data) / 2
+			w.Write(f.data[:h])
+			w.Write(f.data[h:])
+			w.Close()
+			return
+		}
+		select {
+		case <-done:
+			return
+		case <-time.After(500 * time.Microsecond):
+		}
+	}
 }
 
 type failingReader struct{ err error }
@@ -619,6 +672,10 @@ func genProcCase(t *Tape, c01only bool) *ProcCase {
 			c.Selectors = append(c.Selectors, procSelectors[t.Draw(len(procSelectors))])
 		}
 	}
+	// a named input may be a pipe rather than a regular file
+	if len(c.Inputs) > 0 && t.Chance(1, 6) {
+		c.Inputs[t.Draw(len(c.Inputs))].Kind = "fifo"
+	}
 	// -o
 	c.OMode = []string{"", "", "-", "file", "existing"}[t.Draw(5)]
 	c.Env = procEnvs[t.Draw(len(procEnvs))]
@@ -753,6 +810,12 @@ func genProcStreamCase(t *Tape) *ProcCase {
 		c.OMode = []string{"-", "file"}[t.Draw(2)]
 	}
 	c.ViaF = t.Chance(1, 5)
+	// named inputs that are pipes: size 0, not seekable, bytes arrive late
+	for i := range c.Inputs {
+		if t.Chance(1, 5) {
+			c.Inputs[i].Kind = "fifo"
+		}
+	}
 	return c
 }
 
